@@ -239,6 +239,79 @@ def r2_array(program, folder, rep):
                      (("call", ("attr", NP, "minimum"), (V("v"), HI), ()),
                       LO), ())):
                 m2 = m2 or match(pat, m["x"])
+            if m2 is None and any(st_[0] in ("phi", "mu")
+                                  for st_ in subterms(rets[0])):
+                # saturation made only when something is out of range: for
+                # each outcome of the np.any(<values> (<|>) <bound>) tests,
+                # an end that has values beyond it must be clamped
+                import itertools
+                tests = []
+                for a_ in C.cfg.nodes:
+                    if a_.kind != "assume" or not a_.polarity:
+                        continue
+                    tc, _ = C.cond(a_.ast, a_, True)
+                    ptc = plain(tc)
+                    if ptc[0] == "call" and ptc[1] == ("attr", NP, "any") \
+                            and len(ptc[2]) == 1 and ptc[2][0][0] == "cmp":
+                        cmp_ = ptc[2][0]
+                        end = "hi" if HI in (cmp_[2], cmp_[3]) else \
+                            "lo" if LO in (cmp_[2], cmp_[3]) else None
+                        if end and (tc, end) not in tests:
+                            tests.append((tc, end))
+                if len(tests) > 3:
+                    raise AnalysisError(
+                        "NumpyFloatToFixConverter.__call__: the saturation "
+                        "step was not found in the form analysed")
+
+                def clamps(t_):
+                    hi = lo = False
+                    for st_ in subterms(plain(t_)):
+                        if st_[0] == "call" and st_[1][0] == "attr" and \
+                                st_[1][1] == NP:
+                            if st_[1][2] == "clip":
+                                hi = lo = True
+                            elif st_[1][2] == "minimum" and HI in st_[2]:
+                                hi = True
+                            elif st_[1][2] == "maximum" and LO in st_[2]:
+                                lo = True
+                    return hi, lo
+                r_ = returns_of(call)[0]
+                for vals_ in (itertools.product((True, False),
+                                                repeat=len(tests))
+                              if tests else ()):
+                    Hc = C.under(*[(t_[0], v_) for t_, v_ in zip(tests,
+                                                                 vals_)])
+                    rn_ = Hc.cfg.node_of(r_)
+                    if not Hc.live(rn_):
+                        continue
+                    xt = Hc.term(r_.value, rn_)
+                    if any(st_[0] in ("phi", "mu") for st_ in subterms(xt)):
+                        raise AnalysisError(
+                            "NumpyFloatToFixConverter.__call__: what is "
+                            "cast is not settled by the outcome of the "
+                            "range tests; not analysed")
+                    hi_, lo_ = clamps(xt)
+                    for (t_, end), v_ in zip(tests, vals_):
+                        if v_ and not (hi_ if end == "hi" else lo_):
+                            rep.bad("C16-R2", qual(call),
+                                    "conditional saturation",
+                                    "when the array holds values beyond the "
+                                    "%s of the range%s, the values cast are "
+                                    "not clamped at that end: they wrap "
+                                    "around in the integer cast (whether an "
+                                    "element saturates depends on the other "
+                                    "elements)" % (
+                                        "maximum" if end == "hi" else
+                                        "minimum",
+                                        " and beyond the other end too"
+                                        if all(vals_) and len(tests) > 1
+                                        else ""), call)
+                            return widths, bounds, fl, n_bits
+                if tests:
+                    raise AnalysisError(
+                        "NumpyFloatToFixConverter.__call__: saturation is "
+                        "made conditionally; each tested end is clamped, "
+                        "the scaling is not re-checked in that form")
             if m2 is None and not any(
                     st_[0] == "call" and st_[1][0] == "attr" and
                     st_[1][2] in ("clip", "minimum", "maximum")
